@@ -51,7 +51,7 @@ FaultOrder == << "deprecated_memory", "no_general", "no_instructions", "min_vers
                  "mnemonic_keyword", "mnemonic_keyword_upper", "missing_bytecode", "count_mismatch", "unknown_operand_set",
                  "count_zero_with_list", "count_zero_unknown_set", "count_smaller_than_list", "variant_count_mismatch", "variant_count_zero_with_list",
                  "variant_unknown_operand_set", "specific_undeclared_register", "specific_inverted_range", "specific_unknown_operand_type",
-                 "macro_keyword", "macro_same_as_instruction", "zone_inverted", "zone_beyond_width", "zone_end_is_space_size",
+                 "macro_keyword", "macro_same_as_instruction", "macro_same_as_instruction_other_case", "zone_inverted", "zone_beyond_width", "zone_end_is_space_size",
                  "global_beyond_width" >>
 Faults == {FaultOrder[i] : i \in 1..Len(FaultOrder)}
 
@@ -67,6 +67,8 @@ Validate(x) == ValidateFrom(x, 1)
 Accepted(x) ==
     CASE x.kind = "def"     -> Validate(x) = "ok"
       [] x.kind = "minver"  -> VLe(MinSupported, x.v) /\ VLe(x.v, Running)
+      \* requiredef: the ISA definition names no language, so the language is called like its file without the extension (gen.isa.v2)
+      [] x.kind = "requiredef" -> x.name = "same"
       [] x.kind \in {"require", "require2"} -> x.name = "same" /\ (x.op = "" \/ Cmp(x.iv, x.op, x.v))
       [] OTHER -> FALSE
 
